@@ -542,12 +542,14 @@ func (fr *Frame) unop(x *ssa.UnOp, reach T, st *State) {
 			fr.assumeLoaded(v, x.Type(), reach, nil)
 		}
 	case token.ARROW: // channel receive
+		fr.ghostAt("recv", fr.recvOrd[x], "recv", "before", reach, st, map[string]Val{"ch": {t: fr.val(x.X), typ: x.X.Type()}})
 		v := ex.freshOfType(fr.vname(x), chanElem(x.X.Type()), reach, st)
 		if x.CommaOk {
 			fr.tuples[x] = []T{v, ex.fresh(fr.vname(x)+"_ok", "Bool")}
 		} else {
 			fr.vals[x] = v
 		}
+		fr.ghostAt("recv", fr.recvOrd[x], "recv", "after", reach, st, map[string]Val{"ch": {t: fr.val(x.X), typ: x.X.Type()}, "result": {t: v, typ: chanElem(x.X.Type())}})
 	default:
 		panic(engineErr("needs-subset", "unop %s", x.Op))
 	}
